@@ -75,8 +75,12 @@ def oracle(v, run):
 def check(rep):
     coq = fw.coq_check("C06", ["SrcBond"])
     quick = rep.tier == "quick"
-    cases, stats = genrun.collect(rep, 150 if quick else 6000, 14 if quick else 300, max_leaves=150 if quick else 2000,
-                                  budget_s=130 if quick else 1500)
+    import gen_inputs as gi
+    # every sequence of random choices includes the draws: negative and tiny targets (forced, and natural draws of wide Gaussians) must still
+    # give at least one repeat unit per object and a closed molecule
+    wide = [(a + ":gauss_wide", t, s) for a, t, s in gi.cases(rep.seed + 66, 40 if quick else 1500, archetypes=["homopolymer", "block_copolymer", "end_initiated", "random_copolymer"], family="gauss_wide")]
+    cases, stats = genrun.collect(rep, 150 if quick else 6000, 14 if quick else 300, forced_kinds=(None, None, "negative", None, "below"), max_leaves=150 if quick else 2000,
+                                  budget_s=130 if quick else 1500, extra_natural=wide)
     wp_cache = {}
     accepted = rejected = mols = 0
     acc_by_arch = {}
